@@ -41,7 +41,7 @@ KINDS = {"KeyError": "KeyError", "MissingChksumHandler": "MissingChksumHandler",
          "ParseChksumError": "ParseChksumError"}
 WIDTH = {"blake2b": 128, "blake2s": 64, "md5": 32, "rmd160": 40, "sha1": 40, "sha256": 64, "sha3_256": 64,
          "sha3_512": 128, "sha512": 128}
-HASHLIB = {"blake2b": "blake2b", "blake2s": "blake2s", "md5": "md5", "sha1": "sha1", "sha256": "sha256",
+HASHLIB = {"blake2b": "blake2b", "blake2s": "blake2s", "md5": "md5", "rmd160": "ripemd160", "sha1": "sha1", "sha256": "sha256",
            "sha3_256": "sha3_256", "sha3_512": "sha3_512", "sha512": "sha512"}
 UMASK = 0o022
 _SAFE = set(range(32, 127)) - {ord(c) for c in '\\"@|;'}
@@ -57,6 +57,8 @@ def bs(s: str) -> str:
 
 
 def cres(x) -> str:
+    if isinstance(x, Err):
+        return "(VErr (s2l " + bs(esc(x.kind)) + "))"
     if isinstance(x, str):
         return "(VT " + bs(esc(x)) + ")"
     if isinstance(x, (list, tuple)):
@@ -115,11 +117,11 @@ def rand_val(rng, chf):
 
 def rand_chfs(rng):
     r = rng.random()
-    if r < 0.55:
-        return ("size", rng.choice(["md5", "sha1"]))
-    if r < 0.8:
+    if r < 0.7:
+        return ("size", rng.choice(["md5", "sha1", "rmd160"]))
+    if r < 0.87:
         return ("size",) + tuple(rng.sample(["md5", "sha1", "sha256", "blake2s", "sha3_256"], 2))
-    if r < 0.9:
+    if r < 0.92:
         return ("size", "blake2b", "sha512")
     return ("size",) + tuple(rng.sample(sorted(HASHLIB), rng.randrange(0, 3)))
 
@@ -295,7 +297,7 @@ def stream_text(chk, digest, work):
     path = str(work / "fake" / "cat" / "pkg" / "Manifest")
     os.makedirs(os.path.dirname(path))
     with FakeScan(digest) as fs_:
-        for i in range(chk.n(150, 3000)):
+        for i in range(chk.n(110, 3000)):
             hostile = rng.random() < 0.3
             thin, scan, fetch, cov = gen_fake(rng, hostile)
             # the model sees the objects as the scan yields them (fsBase normalises its location)
@@ -382,6 +384,8 @@ def gen_pkg(rng, hostile=False):
         bad = True
     thin = rng.random() < 0.25
     chfs = list(rand_chfs(rng))
+    if len(chfs) > 2 and rng.random() < 0.75:
+        chfs = chfs[:2]          # snakeoil hashes with one thread per function beyond size+1: slow under load
     if hostile and rng.random() < 0.3:
         chfs = [c for c in chfs if c != "size"] or ["md5"]
     fetch = [[n, ck] for n, ck in rand_fetch(rng)]
@@ -389,7 +393,7 @@ def gen_pkg(rng, hostile=False):
             "old": rng.choice([None, None, "@uptodate", "@uptodate", "@crlf", "", "DIST x 1 MD5 00\n", "garbage\n",
                                "@prefix", "@extra"]),
             "stale": rng.choice([None, None, None, "", "stale partial\n"]),
-            "lseed": rng.randrange(1 << 30), "chunks": rng.choice([1, 2, 3, 3, 4])}
+            "lseed": rng.randrange(1 << 30), "chunks": rng.choice([1, 2, 2, 3])}
 
 
 def build_pkg(pk, case):
@@ -489,7 +493,7 @@ def reap(run):
     hook = sys.unraisablehook
     sys.unraisablehook = lambda *a: None
     try:
-        gc.collect()
+        gc.collect(0)
     finally:
         sys.unraisablehook = hook
 
@@ -619,7 +623,9 @@ def run_update_case(digest, pk, case, chk_unused=None):
                 oracle.append({"what": "the generated Manifest does not parse back to the sizes and checksums of "
                                        "the files and distfiles it covers", "text": final[0], "parsed": got,
                                "covered": want})
-        return {"res": [bool(run0.result), ops, crash, eio], "scan": scan, "old": old, "stale": stale,
+        def code(st):
+            return [None if x is None else 1 if x == old else 2 if x == ref_text else x for x in st]
+        return {"res": [bool(run0.result), ops, [code(c) for c in crash], [code(c) for c in eio]], "scan": scan, "old": old, "stale": stale,
                 "chunk": chunk, "oracle": oracle, "ncrash": n, "text": final[0], "trace": [repr(c) for c in run0.trace]}
     finally:
         os.umask(old_umask)
@@ -644,7 +650,7 @@ def stream_update(chk, digest, work):
     rng = chk.rng
     rows, metas, bad = [], [], []
     todo = [c for c in corpus_cases() if "files" in c]
-    todo += [None] * chk.n(36, 400)
+    todo += [None] * chk.n(24, 400)
     for i, case in enumerate(todo):
         if case is None:
             case = gen_pkg(rng, hostile=rng.random() < 0.12)
@@ -729,11 +735,11 @@ def stream_parse(chk, digest, work, texts):
         if "parse" in c:
             cands.append(c["parse"])
     texts = [t for t in texts if isinstance(t, str) and t]
-    good = rng.sample(texts, min(len(texts), chk.n(40, 300))) if texts else []
+    good = rng.sample(texts, min(len(texts), chk.n(24, 300))) if texts else []
     cands += good
-    for _ in range(chk.n(150, 2500)):
+    for _ in range(chk.n(110, 2500)):
         t = rng.choice(good) if good and rng.random() < 0.8 else rng.choice(HAND_PARSE)
-        if len(t) > 700:
+        if len(t) > 400:
             t = "\n".join(rng.sample(t.split("\n"), 2)) + "\n"
         t = mutate(rng, t)
         if rng.random() < 0.2:
